@@ -11,6 +11,9 @@ QUERIES = [dict(name='span_ops_before_after_end_%dops' % n, harness=t, entry='h_
                 shape='%d symbolic operations from {SetAttribute, AddEvent, SetStatus, UpdateName, End} on a recording span, then a final End' % n) for (n, t) in ((2, 'c04_span'), (3, 'c04_span3'), (4, 'c04_span4'))] + [
            dict(name='dropped_span_inert', harness='c04_span', entry='h_span_ops_dropped', unwind=18, unwindset=US, rec_unwind=3, timeout=1500,
                 shape='3 symbolic operations on a span the sampler dropped, then destruction')]
+HARNESSES['c04_sd'] = dict(src='c04_spandata.cc', defines=['OTEL_INTERNAL_LOG_LEVEL=0'], models=['libc.c', 'cxxrt.c', 'stdstring.c', 'single_threaded.c', 'pthread_clock.c', SP_LEAK_MODEL, 'rbtree.c', 'hashtable_policy.c', 'hash_bytes.c'], overrides=[SP_RELEASE], ir2c_flags=['--new-array-max', '64'], model_defines=['VERIF_NEW_ARRAY_MAX=64'])
+QUERIES.append(dict(name='spandata_scalars_owned', harness='c04_sd', entry='h_spandata_scalars', unwind=18, unwindset=US, rec_unwind=3, timeout=900, tier='quick',
+       shape='real SpanData: one or two SetName (3- and 2-byte symbolic names), one or two SetStatus (symbolic codes, descriptions of symbolic length 0 or 2), symbolic identity/flags/kind/start/duration; caller buffers freed before the getters are read'))
 BOUNDS = ['2 operations per span in the quick tier (3 and 4 thorough), one processor (mock) and mock recordable']
-OUTSIDE = ['Span destruction ending an open span (shared_ptr disposers are not run in these queries: measured, with the real release path the 2-operation query did not finish in 600 s)', 'SpanData / attribute map contents and ownership of caller buffers (std::unordered_map of variants: not encoded yet)', 'MultiRecordable fan-out', 'several threads on one span (mutex discipline only through the self-deadlock model)']
+OUTSIDE = ['Span destruction ending an open span (shared_ptr disposers are not run in these queries: measured, with the real release path the 2-operation query did not finish in 600 s)', 'SpanData attribute map, events and links (std::unordered_map / std::vector of variants: heavy-STL gate, DESIGN.md 7.7)', 'MultiRecordable fan-out', 'several threads on one span (mutex discipline only through the self-deadlock model)']
 ASSUMPTIONS = ['std::shared_ptr release does not run disposers', 'pthread mutex = owner flag', 'clocks arbitrary non-decreasing']
